@@ -101,6 +101,15 @@ CLAIMS = {
             "arbitrary valid values; the solver shows round-trip identity and absence of panics/overflow/out-of-bounds (CBMC pointer checks on).",
             "Bounds: region id <= 4 bytes or > 1024, change records <= 56 bytes, arrays N in {1,3,33,65}. Outside: serde, derive macro output, Regions::fill.",
             "codec round-trip / arbitrary-bytes harnesses", "5 C17"),
+    "C14": ("model_checking",
+            "Narrow: the raw Bytes format, one region, stored length concrete per harness (empty, shorter than a header, header only, misaligned payload, "
+            "two elements) with stored header version / vector version / format byte and the requested version symbolic. Plain import: accepts exactly an empty "
+            "region or a matching aligned vector, returns the stored length, writes nothing to an existing vector's region, never discards; a refused import wrote "
+            "nothing. Forced import: keeps matching data, keeps and returns what it stored itself, never discards on a non-version error. Known finding F06: the "
+            "forced entry point adds the layer version twice, so a vector stored through import() is discarded by forced_import() with identical arguments.",
+            "NOT decided: compressed formats and their page-index region, the holes region, name resolution and region creation/removal (stubbed: the allocator is "
+            "decided by C01/C02), lock and I/O errors during import, EagerVec/stored-vec wrappers' additional version layers.",
+            "contract-mode import harnesses, one per stored length", "5 C14"),
     "C18": ("model_checking",
             "Narrow: only the part of the property that is code in open_with_min_len is decided. On a file-system model with symbolic file length, "
             "symbolic min_len and a symbolic 'locked by another holder' flag per file, the solver shows over the ghost event log of the real code that "
@@ -119,14 +128,15 @@ CLAIMS = {
     "C20": ("model_checking",
             "Reads in the post-rollback state (logical length above the bytes on disk) with CBMC pointer checks on over a 48-byte file: the read-write vector "
             "serves such indices from its overlay; the read-only clone does not (known finding F04).",
-            "Raw Bytes format, point reads only; compressed readers and range reads in the expanded state outside.",
+            "Raw Bytes format, point reads only; compressed readers and range reads in the expanded state outside. For the compressed formats only the lemma that "
+            "keeps the persisted page table from describing pages the data region no longer holds is decided (Pages::truncate/checked_push/flush leave the "
+            "page-index region byte-equal to the in-memory index and exactly 16 * pages long, concrete shapes with 0-2 pages).",
             "contract-mode harnesses with pointer checks", "5 C20"),
 }
 
 NOT_APPLICABLE = {
     "C04": "rollback step lemmas need the change-file directory model (std::fs read_dir / numeric file names) and the holes region; not built in the time available - no check, nothing claimed",
-    "C07": "compressed write()/Pages harnesses not built (page capacity hook + codec stub needed); codec internals (Pco/LZ4/Zstd numeric loops, C FFI) are out of reach of Kani in any case",
-    "C14": "import_with / forced_import_with call create_region_if_needed and remove_region (allocator + name index with 7-byte names): contract mode cuts the allocator; not built",
+    "C07": "codec internals (Pco/LZ4/Zstd numeric loops, C FFI) are out of reach of Kani; the framework half was encoded (kani/vecdb/comp_rw.rs: real write() with an identity codec and 16-byte pages via a cfg(kani) page-size hook, 13 concrete shapes) but every shape exhausts memory (4.4 M symex steps, out of memory at a 40 GB cap) - nothing claimed. Only the Pages::flush lemma (persisted page index == in-memory index) is decided, and it is listed under C20",
     "C16": "only the cursor arithmetic of the change-record parser is decided (harness c17_change_cursor_bounds, listed under C17); the whole-record parser harness exhausts memory (symbolic-length collect), retention (save_change_file: numeric file names via string formatting) and rollback_before are not encodable within reach - nothing claimed",
 }
 
